@@ -394,12 +394,31 @@ def _check_templates(check, an: Analysis):
                        '%s is generated by %s with symbol %r (found %s)' % (
                            name, maker, symbol, got[:2] if got else None))
     # __ne__ is the negation of __eq__
-    ne = [n for n in ast.walk(spec.node) if isinstance(n, ast.FunctionDef)
-          and n.name == '__ne__']
-    ok = len(ne) == 1 and len(ne[0].body) == 1 and isinstance(ne[0].body[0], ast.Return) \
-        and equal_bool(ne[0].body[0].value, 'not self == other')
+    # (defined in the generated class, bound there to a plain function of the module, or
+    # left to the default of object, which inverts __eq__)
+    special = [n for n in ast.walk(spec.node) if isinstance(n, ast.ClassDef)]
+    ne = []
+    for cls_node in special:
+        for stmt in cls_node.body:
+            if isinstance(stmt, ast.FunctionDef) and stmt.name == '__ne__':
+                ne.append(stmt)
+            elif isinstance(stmt, ast.Assign) and any(
+                    ast.unparse(t) == '__ne__' for t in stmt.targets):
+                binding = an.p.resolve_dotted(spec.module, stmt.value) \
+                    if isinstance(stmt.value, (ast.Name, ast.Attribute)) else None
+                target = an.p.functions.get(binding[1]) \
+                    if binding and binding[0] == 'func' else None
+                ne.append(target.node if target is not None else None)
+    from ..norm import function_predicate, equivalent_terms, bool_term
+    ok = len(special) == 1 and len(ne) <= 1
+    for node in ne:
+        params = [a.arg for a in node.args.args] if node is not None else []
+        got = function_predicate(node) if node is not None and len(params) == 2 else None
+        ok = ok and got is not None and equivalent_terms(got, bool_term(ast.parse(
+            'not %s == %s' % tuple(params), mode='eval').body))
     check.instance('T', 'ResourceLevels.__ne__', ok, where_fn(spec),
-                   '__ne__ is `not self == other`')
+                   '__ne__ is `not self == other`' if ne else
+                   '__ne__ is the default of object: the inverse of __eq__')
     # templates: element-wise with the given symbol; comparisons joined by `and`
     def enclosing_loops(fn, target):
         """loops / comprehension clauses whose body contains ``target``"""
